@@ -280,7 +280,10 @@ def special_programs():
 
     return {
         # found through C07's dtype-varying call sites: a float16 value requested by the callable itself meets the float policy
-        "abs_after_astype_float16": (lambda x: jnp.abs(x.astype(jnp.float16)).astype(jnp.float32), [((3, 4), np.float32)]),
+        "abs_after_astype_float16": (lambda x: jnp.abs(x.astype(jnp.float16)).astype(jnp.float32), [((3, 4), np.float32)], False),
+        # found by the type-promotion family of the program grammar in a double-precision configuration
+        "std_of_int_double": (lambda x: jnp.std(jnp.clip(x, -100, 100)), [((2, 3), np.int32)], True),
+        "var_of_int_double": (lambda x: jnp.var(jnp.clip(x, -100, 100), axis=-1), [((2, 3), np.int32)], True),
     }
 
 
@@ -288,8 +291,9 @@ def check_special(name):
     import jax
     from vf import jaxutil
 
-    fn, specs = special_programs()[name]
-    model = jaxutil.to_onnx(fn, [jax.ShapeDtypeStruct(s, d) for s, d in specs])
+    fn, specs, double = special_programs()[name]
+    with jaxutil.x64(double):
+        model = jaxutil.to_onnx(fn, [jax.ShapeDtypeStruct(s, d) for s, d in specs], **({"enable_double_precision": True} if double else {}))
     return check_model(model, {"layer": "special", "program": name}, {"kind": "special", "name": name}, None)
 
 
